@@ -1347,6 +1347,32 @@ def r07_6(ctx, rid="R07.6", only=None, floor=3):
     ctx.run_rule(rid, "loops with a pure exit test over locals make progress on every iteration", body, floor=floor)
 
 
+def r07_7(ctx):
+    """Patterns come from rules: the regex crate's nest limit (default 250) is what turns a pathologically nested
+    marker expression into a logged compile error instead of a stack overflow in the recursive compiler.  No
+    builder may lift it."""
+    F = ctx.facts
+
+    def body(r):
+        builders = 0
+        for f in F.fn_list:
+            if f.derived or not f.file.startswith("src/"):
+                continue
+            pv = None
+            for bi, t, cal in f.calls():
+                if cal is None or cal.local:
+                    continue
+                if cal.name == "new" and (cal.adt or "").endswith("RegexBuilder"):
+                    builders += 1
+                if cal.name == "nest_limit" and "Builder" in (cal.adt or ""):
+                    pv = pv or Prov(f, copies=True)
+                    lim = _const_int(pv.operand(t["args"][1])) if len(t["args"]) > 1 else None
+                    r.ob("regex-limits:%s:nest_limit" % f.key, lim is not None and lim <= 250, f.loc(span_line(t["s"])),
+                         "nest_limit(%s): nesting deeper than the default 250 reaches the recursive compiler with unbounded depth" % (lim if lim is not None else "non-constant"))
+        r.ob("regex-limits:builders", builders >= 1, "", "%d RegexBuilder::new sites inspected" % builders)
+    ctx.run_rule("R07.7", "the regex nest limit is not lifted", body, floor=1)
+
+
 def run(ctx):
     verdicts = r07_5(ctx)
     r07_1(ctx, verdicts)
@@ -1354,3 +1380,4 @@ def run(ctx):
     from .c18 import r18_2
     r18_2(ctx, rid="R07.3")
     r07_6(ctx)
+    r07_7(ctx)
